@@ -58,23 +58,44 @@ Definition set_gradient (csel nsel : Z) (shape spread : Z) (stops : list genstop
 
 Definition neg32 := fneg F32.
 
-Definition linear_matrix (x1 y1 x2 y2 : f32) : aff3 :=
-  let dx := s32 x2 x1 in let dy := s32 y2 y1 in
-  let d := a32 (m32 dx dx) (m32 dy dy) in
-  let ma := d32 dx d in let mb := d32 dy d in
-  [ma; mb; s32 (m32 (neg32 ma) x1) (m32 mb y1); k0; k0; k0].
+(* the three geometry helpers, written once over an abstract numeric type:
+   float32 instance (compared with generate.go) and R instance (proofs/GradGeomR.v) *)
+Record genops (T : Type) := mkGenOps {
+  o_add : T -> T -> T; o_sub : T -> T -> T; o_mul : T -> T -> T; o_div : T -> T -> T; o_neg : T -> T;
+  o_zero : T; o_one : T;
+  o_invsqrt : T -> T        (* float32(1 / math.Sqrt(float64(x))) *)
+}.
+Arguments o_add {T}. Arguments o_sub {T}. Arguments o_mul {T}. Arguments o_div {T}. Arguments o_neg {T}.
+Arguments o_zero {T}. Arguments o_one {T}. Arguments o_invsqrt {T}.
 
-Definition circular_matrix (cx cy rx ry : f32) : aff3 :=
-  let r2 := a32 (m32 rx rx) (m32 ry ry) in
-  let invr := f64_to_f32 (fdiv F64 (of_Z F64 1) (fsqrt F64 (f32_to_f64 r2))) in
-  [invr; k0; m32 (neg32 cx) invr; k0; invr; m32 (neg32 cy) invr].
+Definition G32 : genops f32 :=
+  mkGenOps f32 a32 s32 m32 d32 neg32 k0 k1
+           (fun r2 => f64_to_f32 (fdiv F64 (of_Z F64 1) (fsqrt F64 (f32_to_f64 r2)))).
 
-Definition elliptical_matrix (cx cy rx ry sx sy : f32) : aff3 :=
-  let inv := d32 k1 (s32 (m32 rx sy) (m32 sx ry)) in
-  let ma := m32 sy inv in
-  let mb := m32 (neg32 sx) inv in
-  let mc := s32 (neg32 (m32 ma cx)) (m32 mb cy) in
-  let md := m32 (neg32 ry) inv in
-  let me := m32 rx inv in
-  let mf := s32 (neg32 (m32 md cx)) (m32 me cy) in
+Section Matrices.
+Context {T : Type} (O : genops T).
+Definition linear_matrix_gen (x1 y1 x2 y2 : T) : list T :=
+  let dx := o_sub O x2 x1 in let dy := o_sub O y2 y1 in
+  let d := o_add O (o_mul O dx dx) (o_mul O dy dy) in
+  let ma := o_div O dx d in let mb := o_div O dy d in
+  [ma; mb; o_sub O (o_mul O (o_neg O ma) x1) (o_mul O mb y1); o_zero O; o_zero O; o_zero O].
+
+Definition circular_matrix_gen (cx cy rx ry : T) : list T :=
+  let r2 := o_add O (o_mul O rx rx) (o_mul O ry ry) in
+  let invr := o_invsqrt O r2 in
+  [invr; o_zero O; o_mul O (o_neg O cx) invr; o_zero O; invr; o_mul O (o_neg O cy) invr].
+
+Definition elliptical_matrix_gen (cx cy rx ry sx sy : T) : list T :=
+  let inv := o_div O (o_one O) (o_sub O (o_mul O rx sy) (o_mul O sx ry)) in
+  let ma := o_mul O sy inv in
+  let mb := o_mul O (o_neg O sx) inv in
+  let mc := o_sub O (o_neg O (o_mul O ma cx)) (o_mul O mb cy) in
+  let md := o_mul O (o_neg O ry) inv in
+  let me := o_mul O rx inv in
+  let mf := o_sub O (o_neg O (o_mul O md cx)) (o_mul O me cy) in
   [ma; mb; mc; md; me; mf].
+End Matrices.
+
+Definition linear_matrix := linear_matrix_gen G32.
+Definition circular_matrix := circular_matrix_gen G32.
+Definition elliptical_matrix := elliptical_matrix_gen G32.
